@@ -9,26 +9,6 @@ open Ebv.Bytes Ebv.Collect Ebv.C08
 
 /-! ### every DeviceVar is collected -/
 
-/-- `SimulatedEBPF.__init__` finds, for every attribute name, the first map of that name in the MRO -/
-theorem simDiscoverGo_first (l : List MapAttr) (seen : List Nat) (n : Nat) (a : MapAttr)
-    (hf : l.find? (·.attr = n) = some a) (hs : n ∉ seen) : a ∈ simDiscoverGo l seen := by
-  induction l generalizing seen with
-  | nil => simp at hf
-  | cons b bs ih =>
-    by_cases hb : b.attr = n
-    · have : a = b := by simpa [List.find?, hb] using hf.symm
-      subst this
-      have hc : a.attr ∉ seen := by rw [hb]; exact hs
-      simp [simDiscoverGo, hc]
-    · have hf' : bs.find? (·.attr = n) = some a := by simpa [List.find?, hb] using hf
-      unfold simDiscoverGo
-      split
-      · exact ih seen hf' hs
-      · apply List.mem_cons_of_mem
-        apply ih _ hf'
-        simp only [List.mem_cons, not_or]
-        exact ⟨fun e => hb e.symm, hs⟩
-
 theorem simDiscover_first (gmro : List (List MapAttr)) (n : Nat) (a : MapAttr)
     (hf : gmro.flatten.find? (·.attr = n) = some a) : a ∈ simDiscover gmro :=
   simDiscoverGo_first _ [] n a hf (by simp)
@@ -57,14 +37,33 @@ theorem classTriplesGo_key (m pid : Nat) (ds : Cls) (seen : List Nat) (d : Decl)
         exact Or.inl this
       · exact ih seen hd'
 
-theorem triples_key (m : Nat) (progs : List Prog) (p : Prog) (hp : p ∈ progs) (cls : Cls) (hc : cls ∈ p.mro)
+theorem triples_key (m : Nat) (progs : List Prog) (p : Prog) (hp : p ∈ dedupProgs progs) (cls : Cls) (hc : cls ∈ p.mro)
     (d : Decl) (hd : d ∈ cls) (hm : d.map = m) : ∃ t ∈ triples m progs, t.key = (p.id, d.name) := by
-  rcases classTriplesGo_key m p.id cls [] d hd hm with h | ⟨t, ht, hk⟩
+  have hf : d ∈ p.mro.flatten := List.mem_flatten.2 ⟨cls, hc, hd⟩
+  rcases classTriplesGo_key m p.id p.mro.flatten [] d hf hm with h | ⟨t, ht, hk⟩
   · cases h
-  · refine ⟨t, ?_, hk⟩
-    unfold triples
-    rw [List.mem_flatMap]
-    exact ⟨p, hp, by rw [List.mem_flatMap]; exact ⟨cls, hc, ht⟩⟩
+  · exact ⟨t, List.mem_flatMap.2 ⟨p, hp, ht⟩, hk⟩
+
+/-- every listed instance survives the de-duplication under its identity -/
+theorem dedupGo_mem (ps : List Prog) (seen : List Nat) (p : Prog) (hp : p ∈ ps) :
+    p.id ∈ seen ∨ ∃ q ∈ dedupGo ps seen, q.id = p.id := by
+  induction ps generalizing seen with
+  | nil => cases hp
+  | cons x xs ih =>
+    unfold dedupGo
+    split
+    next hc =>
+      rcases List.mem_cons.1 hp with rfl | hp'
+      · exact Or.inl (by simpa using hc)
+      · exact ih seen hp'
+    next hc =>
+      rcases List.mem_cons.1 hp with rfl | hp'
+      · exact Or.inr ⟨_, List.mem_cons_self, rfl⟩
+      · rcases ih (x.id :: seen) hp' with h | ⟨q, hq, e⟩
+        · rcases List.mem_cons.1 h with h | h
+          · exact Or.inr ⟨x, List.mem_cons_self, h.symm⟩
+          · exact Or.inl h
+        · exact Or.inr ⟨q, List.mem_cons_of_mem _ hq, e⟩
 
 theorem positionOf_isSome (ts : List Triple) (t : Triple) (ht : t ∈ ts) : (positionOf ts t.key).isSome := by
   have hm : t ∈ sortDesc ts := (mem_sortDesc t ts).2 ht
@@ -75,11 +74,11 @@ theorem positionOf_isSome (ts : List Triple) (t : Triple) (ht : t ∈ ts) : (pos
 /-- **devicevars_collected**: for any group class chain in which the first map attribute called `n` is
 the map `a.map` the DeviceVars are bound to, and any list of devices with any class chains:
 the group gets a shared array of the collected size for it, and every DeviceVar (declaration of that map)
-of every class of every device has a position in it -/
+of every class of every device (each instance once, `dedupGo_mem`) has a position in it -/
 theorem devicevars_collected (gmro : List (List MapAttr)) (progs : List Prog) (n : Nat) (a : MapAttr)
     (hf : gmro.flatten.find? (·.attr = n) = some a) :
     (a, total (triples a.map progs)) ∈ initMaps (simDiscover gmro) progs ∧
-    ∀ p ∈ progs, ∀ cls ∈ p.mro, ∀ d ∈ cls, d.map = a.map →
+    ∀ p ∈ dedupProgs progs, ∀ cls ∈ p.mro, ∀ d ∈ cls, d.map = a.map →
       (positionOf (triples a.map progs) (p.id, d.name)).isSome := by
   refine ⟨?_, ?_⟩
   · unfold initMaps
@@ -90,16 +89,21 @@ theorem devicevars_collected (gmro : List (List MapAttr)) (progs : List Prog) (n
 
 /-! ### disjointness and round trip, from C08 -/
 
-/-- variables of different devices never share storage, and all lie inside the shared array
-(no DeviceVar redeclared in a subclass, no device listed twice) -/
-theorem devices_disjoint (m : Nat) (progs : List Prog) (h : ((triples m progs).map Triple.key).Nodup)
-    (d₁ d₂ n₁ n₂ p₁ s₁ p₂ s₂ : Nat) (hd : d₁ ≠ d₂)
-    (h₁ : rangeOf (triples m progs) (d₁, n₁) = some (p₁, s₁))
-    (h₂ : rangeOf (triples m progs) (d₂, n₂) = some (p₂, s₂)) :
-    (p₁ + s₁ ≤ p₂ ∨ p₂ + s₂ ≤ p₁) ∧ p₁ + s₁ ≤ (zeros (total (triples m progs))).length := by
-  have hl := collect_disjoint m progs h
-  refine ⟨hl.1 (d₁, n₁) (d₂, n₂) p₁ s₁ p₂ s₂ (by intro e; exact hd (Prod.mk.inj e).1) h₁ h₂, ?_⟩
-  rw [length_zeros]; exact hl.2.1 _ _ _ h₁
+/-- **devices_disjoint_full**: variables of different devices never share storage — for any devices and
+class chains, including DeviceVars redeclared in subclasses and devices listed twice -/
+def devices_disjoint_full : Prop :=
+  ∀ (m : Nat) (progs : List Prog) (d₁ d₂ n₁ n₂ p₁ s₁ p₂ s₂ : Nat), d₁ ≠ d₂ →
+    rangeOf (triples m progs) (d₁, n₁) = some (p₁, s₁) → rangeOf (triples m progs) (d₂, n₂) = some (p₂, s₂) →
+    p₁ + s₁ ≤ p₂ ∨ p₂ + s₂ ≤ p₁
+
+theorem devices_disjoint_full_proved : devices_disjoint_full := by
+  intro m progs d₁ d₂ n₁ n₂ p₁ s₁ p₂ s₂ hd h₁ h₂
+  exact (collect_disjoint m progs).1 (d₁, n₁) (d₂, n₂) p₁ s₁ p₂ s₂ (fun e => hd (Prod.mk.inj e).1) h₁ h₂
+
+/-- and every variable lies inside the shared array the group allocates -/
+theorem devices_inside (m : Nat) (progs : List Prog) (k : Key) (p s : Nat)
+    (h : rangeOf (triples m progs) k = some (p, s)) : p + s ≤ (zeros (total (triples m progs))).length := by
+  rw [length_zeros]; exact (collect_disjoint m progs).2.1 _ _ _ h
 
 /-- writing one variable leaves every variable with a disjoint range unchanged -/
 theorem other_var_unchanged (fmt fmt₂ : Fmt) (vs : List Int) (data data' : List UInt8) (pos pos₂ : Nat)
@@ -128,12 +132,7 @@ theorem shared_roundtrip (fmt : Fmt) (vs : List Int) (arr : List UInt8) (pos : N
   obtain ⟨d, h1, _, h3, _⟩ := py_roundtrip fmt vs arr pos bs hp hr
   exact ⟨d, h1, h3⟩
 
-/-! ### the override case, at full strength -/
-
-def devices_disjoint_full : Prop :=
-  ∀ (m : Nat) (progs : List Prog) (d₁ d₂ n₁ n₂ p₁ s₁ p₂ s₂ : Nat), d₁ ≠ d₂ →
-    rangeOf (triples m progs) (d₁, n₁) = some (p₁, s₁) → rangeOf (triples m progs) (d₂, n₂) = some (p₂, s₂) →
-    p₁ + s₁ ≤ p₂ ∨ p₂ + s₂ ≤ p₁
+/-! ### the code before the repair -/
 
 /-- group (id 0) with `wkc_errors:'I'` (name 50); device 1 of class `D1(D0)`, `D0` declares `a:'B', b:'B'`,
 `D1` redeclares `a:'Q'`; device 2 declares `a:'B'` -/
@@ -142,11 +141,16 @@ def overrideGroup : List Prog :=
    ⟨1, [[⟨0, 0, .arr false 1 .Q⟩], [⟨0, 0, .arr false 1 .B⟩, ⟨1, 0, .arr false 1 .B⟩]]⟩,
    ⟨2, [[⟨0, 0, .arr false 1 .B⟩]]⟩]
 
-/-- **refuted**: device 1's `a` (8 bytes at 12) covers device 2's `a` (at 14) -/
-theorem devices_disjoint_full_refuted : ¬ devices_disjoint_full := by
+/-- with the old collection device 1's `a` (8 bytes at 12) covered device 2's `a` (at 14) -/
+theorem devices_disjoint_old_refuted : ¬ ∀ (m : Nat) (progs : List Prog) (d₁ d₂ n₁ n₂ p₁ s₁ p₂ s₂ : Nat), d₁ ≠ d₂ →
+    rangeOf (triplesOld m progs) (d₁, n₁) = some (p₁, s₁) → rangeOf (triplesOld m progs) (d₂, n₂) = some (p₂, s₂) →
+    p₁ + s₁ ≤ p₂ ∨ p₂ + s₂ ≤ p₁ := by
   intro h
   have := h 0 overrideGroup 1 2 0 0 12 8 14 1 (by decide) (by decide) (by decide)
   omega
+
+example : rangeOf (triples 0 overrideGroup) (1, 0) = some (0, 8) := by decide
+example : rangeOf (triples 0 overrideGroup) (2, 0) = some (13, 1) := by decide
 
 /-! ### `DeviceVar` dispatch -/
 
